@@ -165,6 +165,45 @@ def c16_view_lifetime(rep):
                     break
 
 
+def c16_cross_format(rep):
+    """One process, one sampling rate, formats with the same number of bytes per sample: empty (and non-empty) slices of
+    one region never carry another format's parameters.  Bounds far beyond any float (10**400) are ordinary out-of-range ints."""
+    AR = lib()["AR"]
+    fmts = [(2, 1), (1, 2), (4, 1), (2, 2), (1, 4), (4, 2), (2, 4), (1, 1), (1, 3), (3, 1)]
+    fmts = [f for f in fmts if f[0] in (1, 2, 4)]
+    regs = [(sw, ch, AR(content(5, sw, ch), 16000, sw, ch)) for sw, ch in fmts]
+    for rnd in range(2):
+        for sw, ch, r in (regs if rnd == 0 else regs[::-1]):
+            for name, fn in (("[0:0]", lambda r=r: r[0:0]), ("[9:]", lambda r=r: r[9:]), ("sec[0:0]", lambda r=r: r.sec[0:0]), ("ms[1:1]", lambda r=r: r.ms[1:1]),
+                             ("[1:3]", lambda r=r: r[1:3]), ("sec[1.0:]", lambda r=r: r.sec[1.0:])):
+                rep.add("evaluations")
+                try:
+                    got = fn()
+                    ok = same_params(got, 16000, sw, ch) and (got + r).data == got.data + r.data
+                    msg = None if ok else "region%s of a (%d-byte, %d-channel) region reports (%r Hz, %r bytes, %r channels)" % (
+                        name, sw, ch, got.sampling_rate, got.sample_width, got.channels)
+                except Exception as exc:
+                    msg = "region%s of a (%d-byte, %d-channel) region: %r" % (name, sw, ch, exc)
+                if msg:
+                    rep.violation("cross-format %s sw=%d ch=%d round=%d" % (name, sw, ch, rnd), msg, {"kind": "c16cross"})
+    r = AR(content(5, 2, 1), 16000, 2, 1)
+    smp = samples_of(r.data, 2, 1)
+    H = 10 ** 400
+    for a, b in ((H, None), (None, H), (-H, None), (None, -H), (H, 3), (-H, H), (2, H), (H, H)):
+        for view in ("samples",):  # (instants that no float can hold are outside what the statement says about the time views)
+            rep.add("evaluations")
+            try:
+                got = r[a:b] if view == "samples" else getattr(r, view)[a:b]
+                want = b"".join(smp[a:b])
+                msg = None if got.data == want else "holds %d samples, list slicing gives %d" % (len(got), len(smp[a:b]))
+            except Exception as exc:
+                msg = "raised %r" % (exc,)
+            if msg:
+                rep.violation("huge-int bounds %s [%s:%s]" % (view, "10**400" if a == H else "-10**400" if a == -H else a,
+                                                             "10**400" if b == H else "-10**400" if b == -H else b),
+                              "%s view sliced with integer bounds of 400 digits: %s" % (view, msg), {"kind": "c16cross"})
+
+
 def c16_numpy_bounds(rep):
     """Bounds given as numpy scalars: either rejected with TypeError or treated exactly like the equal built-in number."""
     import numpy as np
@@ -784,6 +823,35 @@ def c17_misc(rep):
         if (a == b) != want or (a != b) == want:
             rep.violation("eq %r %r" % (snap(a), snap(b)), "== gives %r for %r vs %r" % (a == b, snap(a), snap(b)),
                           {"kind": "c17eq"})
+    class Tagged(AR):
+        """What a user adds to carry a label along: same bytes, same parameters - still equal to the plain region."""
+
+    for a in P:
+        rep.add("evaluations")
+        t = Tagged(bytes(a.data), a.sr, a.sw, a.ch)
+        try:
+            ok = (t == a) and (a == t) and not (t != a) and (t * 1 == t) and (t == t * 1)
+        except Exception as exc:
+            ok = False
+        if not ok:
+            rep.violation("eq subclass %r" % (snap(a),), "an AudioRegion subclass instance with the same bytes and parameters is not equal to the region",
+                          {"kind": "c17eq"})
+    # many channels: every mismatch is still refused (16 / 17 / 32 / 33 channels against 1 / 16)
+    many = [AR(bytes(sw_ * ch_ * 2), 8, sw_, ch_) for sw_, ch_ in ((1, 17), (2, 1), (1, 32), (2, 16), (2, 33), (4, 1), (1, 16), (1, 33), (2, 17))]
+    for a, b in itertools.product(many, repeat=2):
+        rep.add("evaluations")
+        if (a.sw, a.ch) == (b.sw, b.ch):
+            continue
+        for name, fn in (("+", lambda: a + b), ("join", lambda: a.join([b, b])), ("sum", lambda: sum([a, b]))):
+            try:
+                fn()
+                rep.violation("mismatch many-channels %s (%d,%d) vs (%d,%d)" % (name, a.sw, a.ch, b.sw, b.ch),
+                              "%s of regions with (width %d, %d channels) and (width %d, %d channels) produced data" % (name, a.sw, a.ch, b.sw, b.ch),
+                              {"kind": "c17eq"})
+            except APE:
+                pass
+            except Exception as exc:
+                rep.violation("mismatch many-channels %s (%d,%d) vs (%d,%d)" % (name, a.sw, a.ch, b.sw, b.ch), "raised %r" % (exc,), {"kind": "c17eq"})
     for a in P:
         c = AR(bytes(a.data), a.sr, a.sw, a.ch)
         if not (a == c):
@@ -801,6 +869,26 @@ def c17_misc(rep):
             pass
         except Exception as exc:
             rep.violation("immutable " + attr, "assignment to %s raised %r" % (attr, exc), {"kind": "c17imm", "attr": attr})
+    # ... and nothing can be taken away either: deleting an attribute is refused and leaves the region as it was
+    for attr in ("data", "sampling_rate", "sample_width", "channels", "start", "duration"):
+        rep.add("evaluations")
+        r = AR(bytes(P[5].data), P[5].sr, P[5].sw, P[5].ch, 0.5)
+        before = (r.data, r.sr, r.sw, r.ch, r.start, r.duration, len(r))
+        try:
+            delattr(r, attr)
+            msg = "del region.%s succeeded" % attr
+        except (dataclasses.FrozenInstanceError, AttributeError, TypeError):
+            msg = None
+        except Exception as exc:
+            msg = "del region.%s raised %r" % (attr, exc)
+        if msg is None:
+            try:
+                after = (r.data, r.sr, r.sw, r.ch, r.start, r.duration, len(r))
+                msg = None if after == before else "after the refused del region.%s the region changed" % attr
+            except Exception as exc:
+                msg = "after the refused del region.%s the region is unusable: %r" % (attr, exc)
+        if msg:
+            rep.violation("immutable del " + attr, msg, {"kind": "c17imm", "attr": attr})
     # non-whole data rejected at construction: 0, 1, 2 whole samples plus 1..sw*ch-1 bytes, with and without a start time
     for sw, ch in FORMATS5:
         for whole in (0, 1, 2):
@@ -1156,6 +1244,23 @@ def c18_buffers(rep):
                         msg = "to_file(%s) raised %r" % (kind, exc)
                     if msg:
                         rep.violation("tofile-buffer %s sw=%d ch=%d n=%d %s" % (kind, sw, ch, n, ext), msg, {"kind": "c18buf"})
+    # the same containers above 16 MiB (directed large row): nothing is cut off
+    big = (big_content(4099, 2, 1) * 2200)[: 2 * 9000001]
+    arr = array.array("h")
+    arr.frombytes(big)
+    for kind, buf in (("numpy int16", np.frombuffer(big, dtype=np.int16)), ("array('h')", arr), ("memoryview of int16", memoryview(arr)), ("bytes", big)):
+        for ext in (".raw", ".wav"):
+            rep.add("evaluations")
+            rep.add("large_rows_not_exhaustive")
+            fn = os.path.join(d, "big%s" % ext)
+            try:
+                to_file(buf, fn, sr=16000, sw=2, ch=1)
+                back = auditok.load(fn, sr=16000, sw=2, ch=1, large_file=(ext == ".wav"))
+                msg = None if back.data == big else "reads back %d bytes, wrote %d" % (len(back.data), len(big))
+            except Exception as exc:
+                msg = "raised %r" % (exc,)
+            if msg:
+                rep.violation("tofile-buffer-large %s %s" % (kind, ext), "to_file(%s holding %d bytes) -> %s: %s" % (kind, len(big), ext, msg), {"kind": "c18buf"})
     import shutil
 
     shutil.rmtree(d, ignore_errors=True)
@@ -1168,21 +1273,21 @@ def c18_more(rep):
     L = lib()
     AR, auditok = L["AR"], L["auditok"]
     # the export reflects the bytes, whatever was done to an earlier export (of this region or an equal one)
-    data = content(6, 2, 2)
-    r = AR(data, 10, 2, 2)
-    want = np.array(decode(data, 2, 2), dtype=float)
-    for how in ("numpy", "asarray", "equal region"):
+    for data in (content(6, 2, 2), (big_content(4099, 2, 2) * 9)[: 4 * 33001]):  # a few samples, and more than 64 KiB
+      r = AR(data, 10, 2, 2)
+      want = np.array(decode(data, 2, 2), dtype=float)
+      for how in ("numpy", "asarray", "equal region", "samples"):
         rep.add("evaluations")
-        first = r.numpy()
+        first = r.samples if how == "samples" else r.numpy()
         try:
             first *= 0
             first += 7
         except Exception:
             pass
-        second = r.numpy() if how == "numpy" else (np.asarray(r) if how == "asarray" else AR(bytes(data), 10, 2, 2).numpy())
+        second = r.numpy() if how == "numpy" else (np.asarray(r) if how == "asarray" else (r.samples if how == "samples" else AR(bytes(data), 10, 2, 2).numpy()))
         if second.shape != want.shape or not (second == want).all():
-            rep.violation("numpy export after mutation (%s)" % how, "after an earlier export was modified in place, %s gives %r" % (
-                how, second.tolist()), {"kind": "c18more"})
+            rep.violation("numpy export after mutation (%s, %d bytes)" % (how, len(data)), "after an earlier export of a %d-byte region was modified in place, %s gives other values (first: %r)" % (
+                len(data), how, second.ravel()[:4].tolist()), {"kind": "c18more"})
     # skips shorter than half a sample, empty files, on lazily read files
     d = os.path.join(common.scratch_dir(), "c18more")
     os.makedirs(d, exist_ok=True)
@@ -1366,6 +1471,7 @@ def run(prop, tier):
         c16_type_errors(rep)
         c16_two_regions(rep)
         c16_view_lifetime(rep)
+        c16_cross_format(rep)
         c16_numpy_bounds(rep)
         c16_huge(rep)
         nmax = 5 if quick else 12
@@ -1466,8 +1572,8 @@ def replay(case):
     if k == "c17L":
         c17_large(rep)
         return rep.violations[0][1] if rep.violations else None
-    if k in ("c16life", "c17div", "c17saj"):
-        {"c16life": c16_view_lifetime, "c17div": c17_div_table, "c17saj": c17_split_and_join}[k](rep)
+    if k in ("c16life", "c17div", "c17saj", "c16cross"):
+        {"c16life": c16_view_lifetime, "c17div": c17_div_table, "c17saj": c17_split_and_join, "c16cross": c16_cross_format}[k](rep)
         return rep.violations[0][1] if rep.violations else None
     if k == "c16c":
         part = c16_chained((case["sw"], case["ch"]))
